@@ -175,15 +175,19 @@ type mval struct {
 	// operation, sawNew is set once a read has returned something else (the attempted value or what a
 	// part-applied operation left). After that, reading oldStr again is an older value brought back.
 	oldStr string
+	newStr string // what the failed operation was writing (a third value is never legitimate)
 	sawNew bool
 	s      string
 	l      []string
 }
 
-func (m *mval) fail(isList bool) {
+func (m *mval) fail(isList bool, attempted mval) {
 	if !m.unknown {
 		m.oldStr = m.str(isList)
+		m.newStr = attempted.str(isList)
 		m.sawNew = false
+	} else {
+		m.oldStr = "\x00no-longer-comparable" // a second failed operation: more than two outcomes are possible
 	}
 	m.unknown = true
 }
@@ -368,7 +372,7 @@ func runModel(c MCase) mresult {
 		switch op {
 		case "set", "setlist":
 			if realErr {
-				m.fail(isList)
+				m.fail(isList, mval{present: true, s: st.Val, l: []string{st.Val, "z"}})
 				break
 			}
 			if err != nil {
@@ -378,13 +382,13 @@ func runModel(c MCase) mresult {
 			*m = mval{present: true, s: st.Val, l: []string{st.Val, "z"}}
 		case "delete":
 			if realErr {
-				m.fail(isList)
+				m.fail(isList, mval{})
 				break
 			}
 			*m = mval{}
 		case "append":
 			if realErr {
-				m.fail(isList)
+				m.fail(isList, mval{present: true, l: append(append([]string{}, m.l...), st.Val)})
 				break
 			}
 			if err != nil {
@@ -399,7 +403,13 @@ func runModel(c MCase) mresult {
 			}
 		case "remove":
 			if realErr {
-				m.fail(isList)
+				var nl []string
+				for _, x := range m.l {
+					if x != st.Val {
+						nl = append(nl, x)
+					}
+				}
+				m.fail(isList, mval{present: m.present, l: nl})
 				break
 			}
 			if m.unknown {
@@ -436,6 +446,10 @@ func runModel(c MCase) mresult {
 			}
 			if m.unknown {
 				// only whole-value writes (set / setlist / delete) leave a two-point outcome space
+				if !strings.HasPrefix(m.oldStr, "\x00") && got != m.oldStr && got != m.newStr {
+					fail("third-value-after-failed-write", fmt.Sprintf("the failed operation was turning %s into %s; a read now returns %s", m.oldStr, m.newStr, got))
+					return r
+				}
 				if got != m.oldStr {
 					m.sawNew = true
 				} else if m.sawNew {
@@ -601,7 +615,7 @@ func TestModelEveryKey(t *testing.T) {
 func TestModelFaultSweep(t *testing.T) {
 	idx := 0
 	scalar := []MStep{{Op: "set", Val: "a"}, {Op: "set", Val: "b"}, {Op: "get"}, {Op: "evict"}, {Op: "get", Node: 1}, {Op: "delete"}, {Op: "get"}, {Op: "evict"}, {Op: "get"}, {Op: "exists", Node: 1}}
-	list := []MStep{{Op: "set", Val: "a"}, {Op: "append", Val: "b"}, {Op: "get"}, {Op: "evict"}, {Op: "get", Node: 1}, {Op: "remove", Val: "b"}, {Op: "get"}, {Op: "evict"}, {Op: "get"}, {Op: "append", Val: "c", Node: 1}, {Op: "get"}, {Op: "evict"}, {Op: "get"}}
+	list := []MStep{{Op: "set", Val: "a"}, {Op: "append", Val: "b"}, {Op: "get"}, {Op: "evict"}, {Op: "get", Node: 1}, {Op: "remove", Val: "a"}, {Op: "get"}, {Op: "evict"}, {Op: "get"}, {Op: "append", Val: "c", Node: 1}, {Op: "get"}, {Op: "remove", Val: "b"}, {Op: "get"}, {Op: "evict"}, {Op: "get"}}
 	for _, key := range []string{"tunnox:user:k7", "tunnox:port_mapping:k7", "tunnox:mappings:list"} {
 		for _, shared := range []bool{false, true} {
 			for _, isList := range []bool{false, true} {
@@ -622,4 +636,115 @@ func TestModelFaultSweep(t *testing.T) {
 			}
 		}
 	}
+}
+
+// ---------------------------------------------------------------------------
+// TestSlowPersistentRead — a persistent-tier read that has already fetched its value but whose answer
+// is still on its way (a slow remote call) while another caller deletes / overwrites the key and
+// then reads it. The second caller's read started after its own write returned: it must see that write
+// (or wait for nothing but its own tiers), never the value the in-flight read is carrying.
+
+type slowPers struct {
+	*vkit.GatePersistent
+	hold    chan struct{} // Get answers are held back until this is closed
+	reading chan struct{} // signalled when a held Get has fetched its value
+	armed   bool
+}
+
+func (p *slowPers) Get(key string) (any, error) {
+	v, err := p.GatePersistent.Get(key)
+	if p.armed {
+		p.armed = false
+		p.reading <- struct{}{}
+		<-p.hold
+	}
+	return v, err
+}
+
+type SlowCase struct {
+	SlowRead bool   `json:"slow_persistent_read"`
+	Key      string `json:"key"`
+	Shared   bool   `json:"shared_cache"`
+	Write    string `json:"write"` // delete | set
+}
+
+func runSlow(c SlowCase) (key, detail string) {
+	sp := &slowPers{GatePersistent: vkit.NewGatePersistent(nil, "pers"), hold: make(chan struct{}), reading: make(chan struct{}, 1)}
+	cache := vkit.NewGateCache(nil, "cache")
+	defer cache.Raw().Close()
+	var sh stypes.CacheStorage
+	if c.Shared {
+		g := vkit.NewGateCache(nil, "shared")
+		defer g.Raw().Close()
+		sh = g
+	}
+	cfg := hybrid.DefaultConfig()
+	cfg.EnablePersistent = true
+	h := hybrid.NewWithSharedCache(context.Background(), cache, sh, sp, cfg)
+	defer h.Close()
+	sp.GatePersistent.Set(c.Key, "v-old") // only the persistent tier holds the key (cold caches)
+	sp.armed = true
+	got1 := make(chan string, 1)
+	go func() { v, err := h.Get(c.Key); got1 <- valStr(v, err) }()
+	select {
+	case <-sp.reading:
+	case <-time.After(5 * time.Second):
+		close(sp.hold)
+		return "C14/harness/slow-read-not-reached", "the first Get never reached the persistent tier"
+	}
+	want := "<notfound>"
+	if c.Write == "delete" {
+		if err := h.Delete(c.Key); err != nil {
+			close(sp.hold)
+			return "C14/harness/write-failed", err.Error()
+		}
+	} else {
+		want = "v-new"
+		if err := h.Set(c.Key, "v-new", 0); err != nil {
+			close(sp.hold)
+			return "C14/harness/write-failed", err.Error()
+		}
+	}
+	got2 := make(chan string, 1)
+	go func() { v, err := h.Get(c.Key); got2 <- valStr(v, err) }()
+	var second string
+	waited := false
+	select {
+	case second = <-got2:
+	case <-time.After(1500 * time.Millisecond):
+		waited = true // the second read is waiting for the first one's answer
+	}
+	close(sp.hold)
+	<-got1
+	if waited {
+		second = <-got2
+	}
+	cat := refCategory(modelCfg, c.Key)
+	if second != want {
+		sym := "stale-after-" + c.Write
+		return "C14/read-joined-an-older-in-flight-read/" + sym + "/category=" + cat, fmt.Sprintf("Get#1 had fetched v-old from the persistent tier and its answer was still pending; %s(%s) returned; a Get started after that returned %s (waited for Get#1: %v), want %s", c.Write, c.Key, second, waited, want)
+	}
+	return "", ""
+}
+
+func TestSlowPersistentRead(t *testing.T) {
+	idx := 0
+	for _, k := range []string{"tunnox:user:k7", "tunnox:port_mapping:k7", "tunnox:mappings:list", "tunnox:persist:clients:list"} {
+		for _, shared := range []bool{false, true} {
+			for _, wr := range []string{"delete", "set"} {
+				idx++
+				if !vkit.Mine(idx) {
+					continue
+				}
+				c := SlowCase{SlowRead: true, Key: k, Shared: shared, Write: wr}
+				key, detail := runSlow(c)
+				if key != "" {
+					vkit.Violation(t, key, detail, c)
+					continue
+				}
+				vkit.Case("slow-persistent-read/"+wr, true, fmt.Sprint(c))
+			}
+		}
+	}
+	vkit.Exhaustive("slow persistent read x {delete,set} x persistent-backed keys x shared tier", true)
 }
